@@ -1,6 +1,7 @@
 package lincon
 
 import (
+	"go/token"
 	"fmt"
 	"go/types"
 
@@ -43,6 +44,12 @@ func (a *Analyzer) execCall(ctx int, v *ssa.Call, s *State, depth int) []*State 
 		case AStr:
 			a.set(s, ctx, v, AInt{x.n})
 		default:
+			if k, ok := a.mapLenCell(s, ctx, args[0]); ok {
+				// the number of entries of a map held in a memory cell: one term
+				// per cell, updated by map stores and deletes (exec.go)
+				a.set(s, ctx, v, s.cells[k])
+				return []*State{s}
+			}
 			r := setFresh().(AInt)
 			s.addLE(r.l.scale(-1))
 		}
@@ -101,7 +108,20 @@ func (a *Analyzer) execCall(ctx int, v *ssa.Call, s *State, depth int) []*State 
 			}
 		}
 		return []*State{s}
-	case "builtin.copy", "builtin.delete", "builtin.close", "builtin.print", "builtin.println", "builtin.clear":
+	case "builtin.delete":
+		if k, ok := a.mapLenCell(s, ctx, args[0]); ok {
+			// one entry fewer, or none (key absent)
+			if old, isInt := s.cells[k].(AInt); isInt {
+				t := newTerm("maplen")
+				nonneg[t] = true
+				s.addLE(tvar(t).scale(-1))
+				s.addLE(tvar(t).sub(old.l))
+				s.addLE(old.l.sub(tvar(t)).addK(-1))
+				s.cells[k] = AInt{tvar(t)}
+			}
+		}
+		return []*State{s}
+	case "builtin.copy", "builtin.close", "builtin.print", "builtin.println", "builtin.clear":
 		setFresh()
 		return []*State{s}
 	case "builtin.panic":
@@ -841,4 +861,29 @@ func covers(old, nw *State) bool {
 		}
 	}
 	return true
+}
+
+// mapLenCell returns the pseudo cell holding the entry count of a map that was
+// loaded from a memory cell (`len(c.items)`), creating it on first use.
+func (a *Analyzer) mapLenCell(s *State, ctx int, m ssa.Value) (cellKey, bool) {
+	if _, isMap := m.Type().Underlying().(*types.Map); !isMap {
+		return cellKey{}, false
+	}
+	ld, ok := m.(*ssa.UnOp)
+	if !ok || ld.Op != token.MUL {
+		return cellKey{}, false
+	}
+	p, ok := a.val(s, ctx, ld.X).(APtr)
+	if !ok {
+		return cellKey{}, false
+	}
+	k := cellKey{p.cell.ctx, p.cell.alloc, p.cell.path + "#len"}
+	if _, have := s.cells[k]; !have {
+		t := termFor(fmt.Sprintf("cell|%d|%p|%s#len", k.ctx, k.alloc, p.cell.path), "len(cell"+p.cell.path+")")
+		nonneg[t] = true
+		s.forget(t)
+		s.addLE(tvar(t).scale(-1))
+		s.cells[k] = AInt{tvar(t)}
+	}
+	return k, true
 }
